@@ -22,6 +22,7 @@ subscription creation and deletion).
 -/
 import Mmmbbb.Properties.C01
 import Mmmbbb.Proofs.Ordered
+import Mmmbbb.Proofs.Ordered2
 import Mmmbbb.Model.Fragment
 namespace Mmmbbb
 
@@ -243,6 +244,46 @@ theorem C05_ordered_partial (ops : List Op) (h : ordStepsOk {} ops = true) :
       e.publishedAt < d.publishedAt → e.isOpen st.now = true → st.db.eligible s st.now d = false := by
   intro st s hs hlive hord d hd e he hds hes hkey hlt hopen
   have hinv : Ord.Inv st.db st.now := ordInv_run ops {} (Ord.Inv.init 0) h
+  obtain ⟨k, hk, h1, h2⟩ := hkey
+  have k1 := keyOf_of_bind hk h1
+  have k2 := keyOf_of_bind hk h2
+  exact hinv.ordered s hs hlive hord d e hd he hds hes (k1.trans k2.symm) (by rw [k1]; simp) hlt hopen
+
+/-- every step of the run from `st` satisfies the refinement obligation *without* the clock
+    assumption (`Ord2.stepOk2`): rows are ordered by when they were made, the link of a new row
+    satisfies the predecessor query with its second sort key, and a shrinking step that removes a keyed
+    row takes the earlier rows of its key that share its publish time with it -/
+def ordStepsOk2 : St → List Op → Bool
+  | _, [] => true
+  | st, op :: r =>
+    Ord2.stepOk2 st.db st.now (step st op).1.db (step st op).1.now && ordStepsOk2 (step st op).1 r
+
+theorem ordInv2_run : ∀ (ops : List Op) (st : St), Ord2.Inv2 st.db st.now → ordStepsOk2 st ops = true →
+    Ord2.Inv2 (run st ops).db (run st ops).now
+  | [], _, h, _ => h
+  | op :: r, st, h, hok => by
+    simp only [ordStepsOk2, Bool.and_eq_true] at hok
+    rw [run_cons]
+    exact ordInv2_run r _ (h.step hok.1) hok.2
+
+/-- **C05 (global, equal publish times included)**: the statement of `C05_ordered_partial` *without the
+    clock assumption*.  Deliveries made in one transaction share their publish time — several
+    deliveries dead-lettered by one sweep, one pull or one nack into an ordered subscription — and the
+    repaired predecessor query (652c205: second sort key, rows nobody waits on first) is what keeps
+    the chain intact there: after any history every step of which satisfies `Ord2.stepOk2`, a keyed
+    message of a live ordered subscription is not deliverable while an earlier-published message with
+    the same key is outstanding on that subscription.  The invariant (`Ord2.Inv2`, Proofs/Ordered2.lean)
+    orders rows by when they were made, not by their stamps.
+    Missing for the full statement: histories with a Seek (the recorded findings) or a change of the
+    message retention. -/
+theorem C05_ordered_ties (ops : List Op) (h : ordStepsOk2 {} ops = true) :
+    let st := run {} ops
+    ∀ s ∈ st.db.subs, s.live = true → s.ordered = true → ∀ d ∈ st.db.dels, ∀ e ∈ st.db.dels,
+      d.subId = s.id → e.subId = s.id →
+      (∃ k, k ≠ "" ∧ (st.db.msgById d.msgId).bind (·.orderKey) = some k ∧ (st.db.msgById e.msgId).bind (·.orderKey) = some k) →
+      e.publishedAt < d.publishedAt → e.isOpen st.now = true → st.db.eligible s st.now d = false := by
+  intro st s hs hlive hord d hd e he hds hes hkey hlt hopen
+  have hinv : Ord2.Inv2 st.db st.now := ordInv2_run ops {} (Ord2.Inv2.init 0) h
   obtain ⟨k, hk, h1, h2⟩ := hkey
   have k1 := keyOf_of_bind hk h1
   have k2 := keyOf_of_bind hk h2
@@ -1246,6 +1287,38 @@ example : ordStepsOk {} exampleOrderedHistory = true := by decide
 example : (outs {} exampleOrderedHistory).map (·.ok) = [true, true, true, true, true, true, true] := by decide
 /-- a seek that re-opens the acknowledged first message does not satisfy the obligation -/
 example : ordStepsOk {} (exampleOrderedHistory ++ [.seekTime "projects/p/subscriptions/o" (-1)]) = false := by decide
+
+/-- non-vacuity of `C05_ordered_ties`, where the clock assumption fails: two messages of key "k" are
+    pulled once from a subscription with a dead-letter policy of one attempt, their leases lapse, one
+    sweep forwards both into the ordered subscription `o` of the dead-letter topic — the two forwarded
+    rows carry the same publish time, the second is linked behind the first — and a third message of
+    the key, published to the dead-letter topic directly, is linked behind the *second* of them -/
+def exampleTieHistory : List Op := [
+  .createTopic "projects/p/topics/t" [] 1,
+  .createTopic "projects/p/topics/d" [] 2,
+  .createSub { name := "projects/p/subscriptions/s", topicName := "projects/p/topics/t", ttl := 1000000000000,
+               messageTtl := 100000000000, ordered := false, labels := [], pushEndpoint := "", minBackoff := 0,
+               maxBackoff := 0, filter := "", maxAttempts := 1, dlTopic := "projects/p/topics/d" } 3,
+  .createSub { name := "projects/p/subscriptions/o", topicName := "projects/p/topics/d", ttl := 1000000000000,
+               messageTtl := 100000000000, ordered := true, labels := [], pushEndpoint := "", minBackoff := 0,
+               maxBackoff := 0, filter := "", maxAttempts := 0, dlTopic := "" } 4,
+  .publish "projects/p/topics/t" 1 [{ id := 10, payload := "a", plen := 1, attrs := [], orderKey := "k", fwds := [⟨3, 11, none⟩] }],
+  .publish "projects/p/topics/t" 1 [{ id := 12, payload := "b", plen := 1, attrs := [], orderKey := "k", fwds := [⟨3, 13, none⟩] }],
+  .pull "projects/p/subscriptions/s" 10 1000 false 1 { cands := [11, 13], delays := [(11, 11000000000), (13, 11000000000)], fwds := [] },
+  .advance 20000000000,
+  .dlSweep 10 [11, 13] [(11, [⟨4, 21, none⟩]), (13, [⟨4, 22, some 21⟩])],
+  .advance 5,
+  .publish "projects/p/topics/d" 1 [{ id := 30, payload := "c", plen := 1, attrs := [], orderKey := "k", fwds := [⟨4, 31, some 22⟩] }],
+  .pull "projects/p/subscriptions/o" 10 1000 false 1 { cands := [21], delays := [(21, 11000000000)], fwds := [] }]
+
+example : (outs {} exampleTieHistory).map (·.ok) = [true, true, true, true, true, true, true, true, true, true, true, true] := by decide
+example : ordStepsOk2 {} exampleTieHistory = true := by decide
+/-- the clock assumption of `C05_ordered_partial` does not hold on this history -/
+example : ordStepsOk {} exampleTieHistory = false := by decide
+/-- a link to the *first* of the two forwarded rows (what the query without its second sort key could
+    answer) is not an observation the model accepts -/
+example : ((outs {} (exampleTieHistory.take 10 ++
+    [.publish "projects/p/topics/d" 1 [{ id := 30, payload := "c", plen := 1, attrs := [], orderKey := "k", fwds := [⟨4, 31, some 21⟩] }]])).map (·.ok)).getLast? = some false := by decide
 
 /-- the statement of the property, for the record: in every state reachable by any history, on an
     ordered subscription no keyed delivery is eligible while an earlier same-key delivery is open -/
